@@ -238,13 +238,17 @@ func runC18(t *sim.T, tier string) *sim.Violation {
 		pool[i] = mkOpts(specs[i])
 	}
 	// ---- task programs
-	nTasks := t.Range(2, 6)
+	maxTasks, maxSteps := 6, 4
+	if tier == "thorough" {
+		maxTasks, maxSteps = 8, 6
+	}
+	nTasks := t.Range(2, maxTasks)
 	progs := make([][]c18Op, nTasks)
 	usePool := map[int]int{}
 	useIn := map[string]int{}
 	var progSig strings.Builder
 	for i := range progs {
-		n := t.Range(1, 4)
+		n := t.Range(1, maxSteps)
 		for k := 0; k < n; k++ {
 			op := c18Op{}
 			if nST > 0 && (t.Chance(1, 4) || (staticHeavy && t.Chance(1, 2))) {
